@@ -233,24 +233,25 @@ theorem sum_map_set (f : Col → Nat) (l : List Col) (i : Nat) (x : Col) (h : i 
 /-! ### the potential of the columns still to be processed -/
 
 /-- weight of a column that has not been started: every missing item may still be admitted
-    (`A + 1` each) and every state it holds still has to be processed (`A` each) -/
-def wcol (U : List Item) (A : Nat) (col : Col) : Nat :=
-  (A + 1) * free U col.states + A * col.states.length
+    (`A + B` each: `A` for processing it, `B` to pay for the loops it lengthens) and every state it holds
+    still has to be processed (`A` each) -/
+def wcol (U : List Item) (A B : Nat) (col : Col) : Nat :=
+  (A + B) * free U col.states + A * col.states.length
 
 /-- weight of the current column: `idx` of its states are done -/
-def wcur (U : List Item) (A idx : Nat) (col : Col) : Nat :=
-  (A + 1) * free U col.states + A * (col.states.length - idx)
+def wcur (U : List Item) (A B idx : Nat) (col : Col) : Nat :=
+  (A + B) * free U col.states + A * (col.states.length - idx)
 
 /-- potential of `cols.drop k` -/
-def potCols (U : List Item) (A idx : Nat) : List Col → Nat
+def potCols (U : List Item) (A B idx : Nat) : List Col → Nat
   | [] => 0
-  | cur :: fut => wcur U A idx cur + (fut.map (wcol U A)).sum
+  | cur :: fut => wcur U A B idx cur + (fut.map (wcol U A B)).sum
 
-theorem wcur_zero (U : List Item) (A : Nat) (col : Col) : wcur U A 0 col = wcol U A col := by
+theorem wcur_zero (U : List Item) (A B : Nat) (col : Col) : wcur U A B 0 col = wcol U A B col := by
   unfold wcur wcol; simp
 
-theorem potCols_zero (U : List Item) (A : Nat) (l : List Col) :
-    potCols U A 0 l = (l.map (wcol U A)).sum := by
+theorem potCols_zero (U : List Item) (A B : Nat) (l : List Col) :
+    potCols U A B 0 l = (l.map (wcol U A B)).sum := by
   cases l with
   | nil => rfl
   | cons a as => simp [potCols, wcur_zero]
@@ -258,33 +259,33 @@ theorem potCols_zero (U : List Item) (A : Nat) (l : List Col) :
 /-- was the state really appended? -/
 def admitted (col : Col) (s : St) : Nat := if present col.states s.item then 0 else 1
 
-theorem wcol_add (U : List Item) (A : Nat) (col : Col) (s : St) (hU : s.item ∈ U) :
-    wcol U A (Col.add .core col s) + admitted col s ≤ wcol U A col := by
+theorem wcol_add (U : List Item) (A B : Nat) (col : Col) (s : St) (hU : s.item ∈ U) :
+    wcol U A B (Col.add .core col s) + B * admitted col s ≤ wcol U A B col := by
   unfold wcol admitted
   rw [Col.add_states_core]
   cases h : present col.states s.item
   · have hlt := free_append_lt U col.states s hU h
     simp only [Bool.false_eq_true, ↓reduceIte, List.length_append, List.length_singleton]
-    have : (A + 1) * free U (col.states ++ [s]) + (A + 1) ≤ (A + 1) * free U col.states := by
+    have : (A + B) * free U (col.states ++ [s]) + (A + B) ≤ (A + B) * free U col.states := by
       have : free U (col.states ++ [s]) + 1 ≤ free U col.states := hlt
-      calc (A + 1) * free U (col.states ++ [s]) + (A + 1)
-          = (A + 1) * (free U (col.states ++ [s]) + 1) := by rw [Nat.mul_add]; simp
-        _ ≤ (A + 1) * free U col.states := Nat.mul_le_mul_left _ this
+      calc (A + B) * free U (col.states ++ [s]) + (A + B)
+          = (A + B) * (free U (col.states ++ [s]) + 1) := by rw [Nat.mul_add]; simp
+        _ ≤ (A + B) * free U col.states := Nat.mul_le_mul_left _ this
     rw [Nat.mul_add]; omega
   · simp
 
-theorem wcur_add (U : List Item) (A idx : Nat) (col : Col) (s : St) (hU : s.item ∈ U) :
-    wcur U A idx (Col.add .core col s) + admitted col s ≤ wcur U A idx col := by
+theorem wcur_add (U : List Item) (A B idx : Nat) (col : Col) (s : St) (hU : s.item ∈ U) :
+    wcur U A B idx (Col.add .core col s) + B * admitted col s ≤ wcur U A B idx col := by
   unfold wcur admitted
   rw [Col.add_states_core]
   cases h : present col.states s.item
   · have hlt := free_append_lt U col.states s hU h
     simp only [Bool.false_eq_true, ↓reduceIte, List.length_append, List.length_singleton]
-    have h1 : (A + 1) * free U (col.states ++ [s]) + (A + 1) ≤ (A + 1) * free U col.states := by
+    have h1 : (A + B) * free U (col.states ++ [s]) + (A + B) ≤ (A + B) * free U col.states := by
       have : free U (col.states ++ [s]) + 1 ≤ free U col.states := hlt
-      calc (A + 1) * free U (col.states ++ [s]) + (A + 1)
-          = (A + 1) * (free U (col.states ++ [s]) + 1) := by rw [Nat.mul_add]; simp
-        _ ≤ (A + 1) * free U col.states := Nat.mul_le_mul_left _ this
+      calc (A + B) * free U (col.states ++ [s]) + (A + B)
+          = (A + B) * (free U (col.states ++ [s]) + 1) := by rw [Nat.mul_add]; simp
+        _ ≤ (A + B) * free U col.states := Nat.mul_le_mul_left _ this
     have h2 : A * (col.states.length + 1 - idx) ≤ A * (col.states.length - idx) + A := by
       have : col.states.length + 1 - idx ≤ (col.states.length - idx) + 1 := by omega
       calc A * (col.states.length + 1 - idx) ≤ A * ((col.states.length - idx) + 1) := Nat.mul_le_mul_left _ this
@@ -293,15 +294,15 @@ theorem wcur_add (U : List Item) (A idx : Nat) (col : Col) (s : St) (hU : s.item
   · simp
 
 /-- the potential of the columns from `k` on -/
-def phi (U : List Item) (A : Nat) (cols : List Col) (k idx : Nat) : Nat := potCols U A idx (cols.drop k)
+def phi (U : List Item) (A B : Nat) (cols : List Col) (k idx : Nat) : Nat := potCols U A B idx (cols.drop k)
 
 /-- credit of an admission attempt into column `e` -/
 def credit (cols : List Col) (e : Nat) (s : St) : Nat :=
   if e < cols.length then admitted (colAt cols e) s else 0
 
-theorem phi_addAt (U : List Item) (A : Nat) (cols : List Col) (k idx e : Nat) (s : St)
+theorem phi_addAt (U : List Item) (A B : Nat) (cols : List Col) (k idx e : Nat) (s : St)
     (hke : k ≤ e) (hU : s.item ∈ U) :
-    phi U A (addAt .core cols e s) k idx + credit cols e s ≤ phi U A cols k idx := by
+    phi U A B (addAt .core cols e s) k idx + B * credit cols e s ≤ phi U A B cols k idx := by
   unfold phi credit addAt
   by_cases he : e < cols.length
   · simp only [he, ↓reduceIte]
@@ -314,22 +315,22 @@ theorem phi_addAt (U : List Item) (A : Nat) (cols : List Col) (k idx e : Nat) (s
     by_cases hek : e = k
     · subst hek
       simp only [Nat.sub_self, List.set_cons_zero, potCols]
-      have := wcur_add U A idx cols[e] s hU
+      have := wcur_add U A B idx cols[e] s hU
       omega
     · obtain ⟨i, hi⟩ : ∃ i, e - k = i + 1 := ⟨e - k - 1, by omega⟩
       rw [hi]
       simp only [List.set_cons_succ, potCols]
       have hil : i < (cols.drop (k + 1)).length := by simp; omega
-      have hsum := sum_map_set (wcol U A) (cols.drop (k + 1)) i (Col.add .core cols[e] s) hil
+      have hsum := sum_map_set (wcol U A B) (cols.drop (k + 1)) i (Col.add .core cols[e] s) hil
       have hget : (cols.drop (k + 1))[i] = cols[e] := by
         simp only [List.getElem_drop]
         congr 1; omega
       rw [hget] at hsum
-      have := wcol_add U A cols[e] s hU
+      have := wcol_add U A B cols[e] s hU
       omega
   · simp only [he, ↓reduceIte]
     rw [List.set_eq_of_length_le (Nat.le_of_not_lt he)]
-    omega
+    simp
 
 /-! ### well-formed machine states -/
 
@@ -340,7 +341,12 @@ structure Sane (c : Cfg) : Prop where
   scan : ∀ t k e l, c.scan t k = some (e, l) → k ≤ e
 
 def Cfg.U (c : Cfg) : List Item := itemSpace c c.ncols
-def Cfg.A (c : Cfg) : Nat := 2 * c.U.length + 3
+/-- what an admission pays on top of the processing of the new state: one step for the active `complete`
+    loop and one for each of the (at most `|U|`) pending ones — all of them run over the same live list -/
+def Cfg.B (c : Cfg) : Nat := c.U.length + 1
+/-- what processing one state may cost: opening a `complete` loop (`≤ 2|U| + 2`), or — `predict` — leaving at
+    most `|U|` pending loops of `≤ 2|U| + 2` steps each -/
+def Cfg.A (c : Cfg) : Nat := (c.U.length + 1) * (2 * c.U.length + 3)
 
 theorem ok_mem_U {c : Cfg} {j : Nat} {it : Item} (h : Item.ok c j it) (hj : j ≤ c.ncols) : it ∈ c.U :=
   mem_itemSpace.2 (Item.ok_mono h hj)
@@ -683,14 +689,43 @@ theorem wfc_shortcut {c : Cfg} {cols : List Col} {k : Nat} (hw : WfC c cols k) :
 
 /-! ### one step of the machine under the core policy -/
 
+/-- what is left of the `complete` calls the running `predict` still has to make: one step to start each,
+    then its loop -/
+def pendRem (cols : List Col) : List St → Nat
+  | [] => 0
+  | t :: ts => 2 + frameLen cols t + pendRem cols ts
+
+theorem pendRem_addAt (cols : List Col) (e : Nat) (s : St) (l : List St) :
+    pendRem (addAt .core cols e s) l ≤ pendRem cols l + l.length * credit cols e s := by
+  induction l with
+  | nil => simp [pendRem]
+  | cons t ts ih =>
+    simp only [pendRem, List.length_cons]
+    have := frameLen_addAt cols e s t
+    rw [Nat.add_mul]
+    omega
+
+theorem pendRem_le (cols : List Col) (L : Nat) (l : List St) (h : ∀ t ∈ l, frameLen cols t ≤ L) :
+    pendRem cols l ≤ l.length * (2 + L) := by
+  induction l with
+  | nil => simp [pendRem]
+  | cons t ts ih =>
+    simp only [pendRem, List.length_cons]
+    have h1 := h t (by simp)
+    have h2 := ih (fun x hx => h x (by simp [hx]))
+    rw [Nat.add_mul]
+    omega
+
 structure Wf (c : Cfg) (m : M) : Prop where
   cols : WfC c m.cols m.k
   frameOk : ∀ t i, m.frame = some (t, i) → Item.ok c m.k t.item
+  pendOk : ∀ t, t ∈ m.pending → Item.ok c m.k t.item
+  pendLen : m.pending.length ≤ c.U.length
 
-/-- the termination measure: admissible items not yet admitted (weight `A+1`), states not yet
-    processed (weight `A`), what is left of the active `complete` loop, columns left -/
+/-- the termination measure: admissible items not yet admitted (weight `A+B`), states not yet
+    processed (weight `A`), what is left of the active `complete` loop and of the pending ones, columns left -/
 def mu (c : Cfg) (m : M) : Nat :=
-  phi c.U c.A m.cols m.k m.idx + frameRem m.cols m.frame + (c.ncols - m.k)
+  phi c.U c.A c.B m.cols m.k m.idx + frameRem m.cols m.frame + pendRem m.cols m.pending + (c.ncols - m.k)
 
 theorem sym?_lt {it : Item} {y : ESym} (h : it.sym? = some y) : it.dot < it.rhs.length := by
   unfold Item.sym? at h
@@ -710,9 +745,9 @@ theorem ok_next {c : Cfg} {j j' : Nat} {it : Item} {y : ESym} (h : Item.ok c j i
 theorem rules_sub {c : Cfg} {r : CRule} (h : r ∈ c.rules) : r ∈ c.rules' := by
   unfold Cfg.rules'; simp [h]
 
-theorem phi_idx_succ (U : List Item) (A : Nat) (cols : List Col) (k idx : Nat) (hk : k < cols.length)
+theorem phi_idx_succ (U : List Item) (A B : Nat) (cols : List Col) (k idx : Nat) (hk : k < cols.length)
     (hidx : idx < (colAt cols k).states.length) :
-    phi U A cols k (idx + 1) + A ≤ phi U A cols k idx := by
+    phi U A B cols k (idx + 1) + A ≤ phi U A B cols k idx := by
   unfold phi
   rw [List.drop_eq_getElem_cons hk]
   rw [colAt_eq_getElem cols k hk] at hidx
@@ -725,9 +760,9 @@ theorem fold_pred {c : Cfg} {k : Nat} (x : NT) (idx : Nat) (alts : List (List ES
     ∀ cols : List Col, WfC c cols k →
       WfC c (alts.foldl (fun cs rhs => addAt .core cs k
               { item := { lhs := x, rhs := rhs, dot := 0, origin := k }, kids := [] }) cols) k
-      ∧ phi c.U c.A (alts.foldl (fun cs rhs => addAt .core cs k
+      ∧ phi c.U c.A c.B (alts.foldl (fun cs rhs => addAt .core cs k
               { item := { lhs := x, rhs := rhs, dot := 0, origin := k }, kids := [] }) cols) k idx
-          ≤ phi c.U c.A cols k idx := by
+          ≤ phi c.U c.A c.B cols k idx := by
   induction alts with
   | nil => intro cols hw; exact ⟨hw, Nat.le_refl _⟩
   | cons rhs rest ih =>
@@ -737,10 +772,9 @@ theorem fold_pred {c : Cfg} {k : Nat} (x : NT) (idx : Nat) (alts : List (List ES
       ⟨rules_sub (hal rhs (by simp)), Nat.zero_le _, Nat.le_refl _⟩
     have hw' := wfc_addAt (s := { item := { lhs := x, rhs := rhs, dot := 0, origin := k }, kids := [] })
       hw (Nat.le_refl k) hok
-    have hlen : k ≤ c.ncols ∨ True := Or.inr trivial
     by_cases hkn : k ≤ c.ncols
     · have hU := ok_mem_U hok hkn
-      have hphi := phi_addAt c.U c.A cols k idx k
+      have hphi := phi_addAt c.U c.A c.B cols k idx k
         { item := { lhs := x, rhs := rhs, dot := 0, origin := k }, kids := [] } (Nat.le_refl k) hU
       obtain ⟨h1, h2⟩ := ih (fun r hr => hal r (by simp [hr])) _ hw'
       exact ⟨h1, by omega⟩
@@ -757,9 +791,26 @@ theorem advance_core (k : Nat) (t s : St) :
   unfold advance
   exact ⟨_, rfl, rfl⟩
 
+theorem frameLen_le {c : Cfg} {cols : List Col} {k : Nat} (hw : WfC c cols k) (t : St) :
+    frameLen cols t ≤ 2 * c.U.length := by
+  unfold frameLen Col.findDot
+  exact Nat.le_trans (List.length_filter_le _ _) (hw.dots_le _)
+
+theorem doneOf_length_le (col : Col) (k : Nat) (x : NT) : (doneOf col k x).length ≤ col.states.length := by
+  unfold doneOf; exact List.length_filter_le _ _
+
+theorem mem_doneOf {col : Col} {k : Nat} {x : NT} {s : St} (h : s ∈ doneOf col k x) :
+    s ∈ col.states ∧ s.item.finished = true := by
+  unfold doneOf at h
+  obtain ⟨h1, h2⟩ := List.mem_filter.1 h
+  simp only [Bool.and_eq_true] at h2
+  exact ⟨h1, h2.2⟩
+
 theorem step_core {c : Cfg} (hs : Sane c) (hp : c.policy = .core) {m m' : M} (hw : Wf c m)
     (h : step c m = .next m') : Wf c m' ∧ mu c m' < mu c m := by
   have hlen := hw.cols.len
+  have hA : c.A = (c.U.length + 1) * (2 * c.U.length + 3) := rfl
+  have hB : c.B = c.U.length + 1 := rfl
   unfold step at h
   split at h
   · cases h
@@ -774,7 +825,7 @@ theorem step_core {c : Cfg} (hs : Sane c) (hp : c.policy = .core) {m m' : M} (hw
       · -- the loop is over
         rename_i hnone
         cases h
-        refine ⟨⟨hw.cols, by intro t i hh; cases hh⟩, ?_⟩
+        refine ⟨⟨hw.cols, (by intro t i hh; cases hh), hw.pendOk, hw.pendLen⟩, ?_⟩
         unfold mu
         simp only [hfr, frameRem]
         omega
@@ -796,82 +847,129 @@ theorem step_core {c : Cfg} (hs : Sane c) (hp : c.policy = .core) {m m' : M} (hw
         simp only at h
         cases h
         have hs'ok' : Item.ok c m.k s'.item := by rw [hitem]; exact hs'ok
-        refine ⟨⟨wfc_addAt hw.cols (Nat.le_refl _) hs'ok', ?_⟩, ?_⟩
+        refine ⟨⟨wfc_addAt hw.cols (Nat.le_refl _) hs'ok', ?_, hw.pendOk, hw.pendLen⟩, ?_⟩
         · intro t' i hh
           simp only [Option.some.injEq, Prod.mk.injEq] at hh
           rw [← hh.1]; exact htok
         · unfold mu
           simp only [hfr, frameRem]
-          have h1 := phi_addAt c.U c.A m.cols m.k m.idx m.k s' (Nat.le_refl _) (ok_mem_U hs'ok' (by omega))
+          have h1 := phi_addAt c.U c.A c.B m.cols m.k m.idx m.k s' (Nat.le_refl _) (ok_mem_U hs'ok' (by omega))
           have h2 := frameLen_addAt m.cols m.k s' t
+          have h3 := pendRem_addAt m.cols m.k s' m.pending
+          have h4 : m.pending.length * credit m.cols m.k s' ≤ c.U.length * credit m.cols m.k s' :=
+            Nat.mul_le_mul_right _ hw.pendLen
+          have h5 : c.B * credit m.cols m.k s' = c.U.length * credit m.cols m.k s' + credit m.cols m.k s' := by
+            rw [hB, Nat.add_mul]; simp
           omega
     · rename_i hfr
       split at h
-      · -- end of the column
+      · -- the next pending `complete` of `predict`
+        rename_i t rest hpend
         cases h
-        refine ⟨⟨wfc_shortcut hw.cols, by intro t i hh; simp [hfr] at hh⟩, ?_⟩
-        unfold mu
-        simp only [hfr, frameRem]
-        have hi := shInv_shortcut hw.cols
-        have e1 : phi c.U c.A (shortcut m.cols m.k) (m.k + 1) 0
-            = ((m.cols.drop (m.k + 1)).map (wcol c.U c.A)).sum := by
-          unfold phi; rw [hi.dropEq, potCols_zero]
-        have e2 : phi c.U c.A m.cols m.k m.idx
-            = wcur c.U c.A m.idx m.cols[m.k] + ((m.cols.drop (m.k + 1)).map (wcol c.U c.A)).sum := by
-          unfold phi; rw [List.drop_eq_getElem_cons hkl]; rfl
-        rw [e1, e2]; omega
-      · rename_i s hsome
-        have hsmem : s ∈ (colAt m.cols m.k).states := List.mem_of_getElem? hsome
-        have hidx : m.idx < (colAt m.cols m.k).states.length := (List.getElem?_eq_some_iff.1 hsome).1
-        have hsok := hw.cols.okS _ _ hsmem
-        have hA : c.A = 2 * c.U.length + 3 := rfl
-        have hstep := phi_idx_succ c.U c.A m.cols m.k m.idx hkl hidx
+        have hcy : cyclicAt c.policy m.k t = false := by rw [hp]; rfl
+        simp only [hcy, Bool.false_eq_true, if_false]
+        have hpl := hw.pendLen
+        rw [hpend] at hpl
+        simp only [List.length_cons] at hpl
+        have hpo := hw.pendOk
+        rw [hpend] at hpo
+        refine ⟨⟨hw.cols, ?_, (fun t' ht' => hpo t' (List.mem_cons_of_mem _ ht')), (by simp only; omega)⟩, ?_⟩
+        · intro t' i hh
+          simp only [Option.some.injEq, Prod.mk.injEq] at hh
+          rw [← hh.1]; exact hpo t List.mem_cons_self
+        · unfold mu
+          simp only [hfr, hpend, frameRem, pendRem]
+          omega
+      · rename_i hpend
         split at h
-        · -- finished: open the frame
+        · -- end of the column
           cases h
-          have hcy : cyclicAt c.policy m.k s = false := by rw [hp]; rfl
-          simp only [hcy, Bool.false_eq_true, if_false]
-          refine ⟨⟨hw.cols, ?_⟩, ?_⟩
-          · intro t i hh
-            simp only [Option.some.injEq, Prod.mk.injEq] at hh
-            rw [← hh.1]; exact hsok
-          · unfold mu
-            simp only [hfr, frameRem]
-            have hL : frameLen m.cols s ≤ 2 * c.U.length := by
-              unfold frameLen Col.findDot
-              exact Nat.le_trans (List.length_filter_le _ _) (hw.cols.dots_le _)
-            omega
-        · split at h
-          · cases h
-            refine ⟨⟨hw.cols, by intro t i hh; simp [hfr] at hh⟩, ?_⟩
-            unfold mu; simp only [hfr, frameRem]; omega
-          · -- predict
-            rename_i x a r hsym
+          refine ⟨⟨wfc_shortcut hw.cols, (by intro t i hh; simp [hfr] at hh), (by intro t hh; simp [hpend] at hh), (by simp [hpend])⟩, ?_⟩
+          unfold mu
+          simp only [hfr, hpend, frameRem, pendRem]
+          have hi := shInv_shortcut hw.cols
+          have e1 : phi c.U c.A c.B (shortcut m.cols m.k) (m.k + 1) 0
+              = ((m.cols.drop (m.k + 1)).map (wcol c.U c.A c.B)).sum := by
+            unfold phi; rw [hi.dropEq, potCols_zero]
+          have e2 : phi c.U c.A c.B m.cols m.k m.idx
+              = wcur c.U c.A c.B m.idx m.cols[m.k] + ((m.cols.drop (m.k + 1)).map (wcol c.U c.A c.B)).sum := by
+            unfold phi; rw [List.drop_eq_getElem_cons hkl]; rfl
+          rw [e1, e2]; omega
+        · rename_i s hsome
+          have hsmem : s ∈ (colAt m.cols m.k).states := List.mem_of_getElem? hsome
+          have hidx : m.idx < (colAt m.cols m.k).states.length := (List.getElem?_eq_some_iff.1 hsome).1
+          have hsok := hw.cols.okS _ _ hsmem
+          have hstep := phi_idx_succ c.U c.A c.B m.cols m.k m.idx hkl hidx
+          have hAge : 2 * c.U.length + 3 ≤ c.A := by
+            rw [hA]; exact Nat.le_mul_of_pos_left _ (by omega)
+          split at h
+          · -- finished: open the frame
             cases h
-            have hal : ∀ rhs, rhs ∈ c.pred m.k x → (x, rhs) ∈ c.rules := fun rhs hr => hs.pred _ _ _ hr
-            rw [hp]
-            obtain ⟨h1, h2⟩ := fold_pred (c := c) (k := m.k) x (m.idx + 1) (c.pred m.k x) hal m.cols hw.cols
-            refine ⟨⟨h1, by intro t i hh; simp [hfr] at hh⟩, ?_⟩
-            unfold mu; simp only [hfr, frameRem]; omega
-          · -- scan
-            rename_i term hsym
-            split at h
+            have hcy : cyclicAt c.policy m.k s = false := by rw [hp]; rfl
+            simp only [hcy, Bool.false_eq_true, if_false]
+            refine ⟨⟨hw.cols, ?_, (by intro t hh; simp [hpend] at hh), (by simp [hpend])⟩, ?_⟩
+            · intro t i hh
+              simp only [Option.some.injEq, Prod.mk.injEq] at hh
+              rw [← hh.1]; exact hsok
+            · unfold mu
+              simp only [hfr, hpend, frameRem, pendRem]
+              have hL := frameLen_le hw.cols s
+              omega
+          · split at h
             · cases h
-              refine ⟨⟨hw.cols, by intro t i hh; simp [hfr] at hh⟩, ?_⟩
-              unfold mu; simp only [hfr, frameRem]; omega
-            · rename_i e l hscan
+              refine ⟨⟨hw.cols, (by intro t i hh; simp [hfr] at hh), (by intro t hh; simp [hpend] at hh), (by simp [hpend])⟩, ?_⟩
+              unfold mu; simp only [hfr, hpend, frameRem, pendRem]; omega
+            · -- predict
+              rename_i x a r hsym
+              cases h
+              have hal : ∀ rhs, rhs ∈ c.pred m.k x → (x, rhs) ∈ c.rules := fun rhs hr => hs.pred _ _ _ hr
+              rw [hp]
+              obtain ⟨h1, h2⟩ := fold_pred (c := c) (k := m.k) x (m.idx + 1) (c.pred m.k x) hal m.cols hw.cols
+              generalize hcols : (c.pred m.k x).foldl (fun cs rhs => addAt .core cs m.k
+                  { item := { lhs := x, rhs := rhs, dot := 0, origin := m.k }, kids := [] }) m.cols = cols' at h1 h2 ⊢
+              have hdl : (doneOf (colAt cols' m.k) m.k x).length ≤ c.U.length :=
+                Nat.le_trans (doneOf_length_le _ _ _) (h1.states_le _)
+              have hpo' : ∀ t, t ∈ (if c.predDone then doneOf (colAt cols' m.k) m.k x else []) → Item.ok c m.k t.item := by
+                intro t ht
+                split at ht
+                · exact h1.okS _ _ (mem_doneOf ht).1
+                · cases ht
+              have hpl : (if c.predDone then doneOf (colAt cols' m.k) m.k x else []).length ≤ c.U.length := by
+                split
+                · exact hdl
+                · simp
+              refine ⟨⟨h1, (by intro t i hh; simp [hfr] at hh), hpo', hpl⟩, ?_⟩
+              unfold mu; simp only [hfr, frameRem]
+              have hpr := pendRem_le cols' (2 * c.U.length)
+                (if c.predDone then doneOf (colAt cols' m.k) m.k x else []) (fun t _ => frameLen_le h1 t)
+              have hmul : (if c.predDone then doneOf (colAt cols' m.k) m.k x else []).length * (2 + 2 * c.U.length)
+                  ≤ c.U.length * (2 + 2 * c.U.length) := Nat.mul_le_mul_right _ hpl
+              have hA2 : c.U.length * (2 + 2 * c.U.length) + 1 ≤ c.A := by
+                rw [hA, Nat.add_mul]
+                have : c.U.length * (2 + 2 * c.U.length) ≤ c.U.length * (2 * c.U.length + 3) :=
+                  Nat.mul_le_mul_left _ (by omega)
+                omega
+              simp only [hpend, pendRem] at *
+              omega
+            · -- scan
+              rename_i term hsym
               split at h
               · cases h
-              · rename_i he
-                cases h
-                have hke := hs.scan _ _ _ _ hscan
-                have hok' : Item.ok c e s.item.next := ok_next hsok hsym hke
-                rw [hp]
-                refine ⟨⟨wfc_addAt hw.cols hke hok', by intro t i hh; simp [hfr] at hh⟩, ?_⟩
-                unfold mu; simp only [hfr, frameRem]
-                have := phi_addAt c.U c.A m.cols m.k (m.idx + 1) e
-                  { item := s.item.next, kids := s.kids ++ [PT.leaf l], cover := s.cover } hke
-                  (ok_mem_U hok' (by omega))
-                omega
+                refine ⟨⟨hw.cols, (by intro t i hh; simp [hfr] at hh), (by intro t hh; simp [hpend] at hh), (by simp [hpend])⟩, ?_⟩
+                unfold mu; simp only [hfr, hpend, frameRem, pendRem]; omega
+              · rename_i e l hscan
+                split at h
+                · cases h
+                · rename_i he
+                  cases h
+                  have hke := hs.scan _ _ _ _ hscan
+                  have hok' : Item.ok c e s.item.next := ok_next hsok hsym hke
+                  rw [hp]
+                  refine ⟨⟨wfc_addAt hw.cols hke hok', (by intro t i hh; simp [hfr] at hh), (by intro t hh; simp [hpend] at hh), (by simp [hpend])⟩, ?_⟩
+                  unfold mu; simp only [hfr, hpend, frameRem, pendRem]
+                  have := phi_addAt c.U c.A c.B m.cols m.k (m.idx + 1) e
+                    { item := s.item.next, kids := s.kids ++ [PT.leaf l], cover := s.cover } hke
+                    (ok_mem_U hok' (by omega))
+                  omega
 
 end FV.Earley
